@@ -34,6 +34,7 @@ type memConn struct {
 	failWriteAt int
 	// failFull: the failing write records its bytes and reports the full count together with the error
 	failFull bool
+	waiting int // readers blocked in Read
 	// eofWithData: the read that hands out the last bytes reports io.EOF with them (io.Reader allows it;
 	// net.Conn implementations report the end on a read of its own)
 	eofWithData bool
@@ -54,7 +55,9 @@ func (c *memConn) Read(p []byte) (int, error) {
 	c.mu.Lock()
 	defer c.mu.Unlock()
 	for len(c.in) == 0 && !c.ended && c.failed == nil && !c.closed {
+		c.waiting++
 		c.cond.Wait()
+		c.waiting--
 	}
 	c.reads++
 	if len(c.in) > 0 {
@@ -142,6 +145,12 @@ func (c *memConn) written() []byte {
 	c.mu.Lock()
 	defer c.mu.Unlock()
 	return append([]byte{}, c.out...)
+}
+// idleReader: everything fed has been read and the reader is blocked waiting for more
+func (c *memConn) idleReader() bool {
+	c.mu.Lock()
+	defer c.mu.Unlock()
+	return len(c.in) == 0 && c.waiting > 0
 }
 func (c *memConn) drained() bool { c.mu.Lock(); defer c.mu.Unlock(); return len(c.in) == 0 }
 
